@@ -36,6 +36,11 @@ def parseBinK? : String → Option BinK
   | "isdistinct" => some .isdistinct | "isnotdistinct" => some .isnotdistinct
   | _ => none
 
+def parseStrK? : String → Option StrK
+  | "contains" => some .contains | "startswith" => some .startswith | "endswith" => some .endswith
+  | "icontains" => some .icontains | "istartswith" => some .istartswith
+  | "iendswith" => some .iendswith | _ => none
+
 def parseLikeK? : String → Option LikeK
   | "like" => some .like | "notlike" => some .notlike | "ilike" => some .ilike
   | "notilike" => some .notilike | _ => none
@@ -68,6 +73,8 @@ def parseU : Nat → List String → Option (U × List String)
     | "col", n :: ty :: rest => (parseTy? ty).map (fun t => (U.col n t, rest))
     | "li", i :: rest => (parseInt? i).map (fun v => (U.li v, rest))
     | "ls", s :: rest => (parseStr? s).map (fun v => (U.ls v, rest))
+    | "pi", i :: rest => (parseInt? i).map (fun v => (U.pi v, rest))
+    | "ps", s :: rest => (parseStr? s).map (fun v => (U.ps v, rest))
     | "ln", s :: rest => (parseStr? s).map (fun v => (U.ln v, rest))
     | "lb", "1" :: rest => some (U.lb true, rest)
     | "lb", "0" :: rest => some (U.lb false, rest)
@@ -155,7 +162,15 @@ def parseU : Nat → List String → Option (U × List String)
           match e, parseUs f 2 rest1 with
           | some e', some ([a, b], r) => some (U.like k e' a b, r)
           | _, _ => none
-        | _, _ => none
+        | _, _ =>
+          match parseStrK? op, rest with
+          | some k, esc :: rest1 =>
+            let e : Option (Option String) :=
+              if esc == "N" then some none else (parseStr? esc).map some
+            match e, parseUs f 2 rest1 with
+            | some e', some ([a, b], r) => some (U.strop k e' a b, r)
+            | _, _ => none
+          | _, _ => none
   | _ + 1, [] => none
 
 def parseUs : Nat → Nat → List String → Option (List U × List String)
@@ -281,7 +296,7 @@ def handle : List String → String
     | some dl, some u =>
       match build u with
       | none => "error"
-      | some e => "ok " ++ (SaExpr.tyOf e).name ++ " " ++ showStr (render dl true e).text
+      | some e => "ok " ++ (SaExpr.tyOf e).name ++ " " ++ showStr (render dl true (lower e)).text
     | _, _ => "bad-op"
   | "parse" :: d :: rest =>
     match parseDialect? d, parseWire rest with
@@ -289,7 +304,7 @@ def handle : List String → String
       match build u with
       | none => "error"
       | some e =>
-        let t := render dl true e
+        let t := render dl true (lower e)
         let g := grammarOf dl
         let flags := b01 (Core e) ++ b01 (WG e) ++ b01 (ok g t)
         match parse g t.print with
@@ -307,7 +322,7 @@ def handle : List String → String
       match build u with
       | none => "error"
       | some e =>
-        let t := render dl true e
+        let t := render dl true (lower e)
         "ok " ++ readToks (grammarOf dl) (t.print.map eraseTok) ++ " " ++
           showStr (skelStr (collapseNeg t.strip.norm.skel))
     | _, _ => "bad-op"
@@ -341,7 +356,7 @@ def handle : List String → String
       match build u with
       | none => "error"
       | some e =>
-        let t := (dropParens (render dl true e) m).1
+        let t := (dropParens (render dl true (lower e)) m).1
         match parse (grammarOf dl) t.print with
         | none => "noparse " ++ showStr t.text
         | some p => "ok " ++ showStr t.text ++ " " ++ showStr p.fullParen.text
